@@ -1,6 +1,7 @@
 (* C14 - packet identifiers stay in 1..65535 and are never shared by live messages.
    Only statements, each closed by [exact]; see Codec/MidProofs.v, Session/*. *)
 From PahoV Require Import Base.Prelude Codec.Mid Codec.MidProofs Codec.MidBridge Gen.GenMid.
+From PahoV Require Import Session.Model Session.C14Session.
 
 (* the source's _mid_generate (translated on every run) is the model's mid_next *)
 Theorem C14_source_is_model : forall fuel m,
@@ -33,6 +34,22 @@ Theorem C14_window_distinct : forall k m, 0 <= m <= 65535 -> Z.of_nat k <= 65535
   NoDup (mid_seq k m).
 Proof. exact mid_seq_NoDup. Qed.
 Print Assumptions C14_window_distinct.
+
+(* the stored (live) QoS 1/2 messages of every state reached by a conforming history have pairwise
+   distinct packet ids *)
+Theorem C14_live_ids_distinct : forall c ops, cfg_ok c = true -> conforming c ops = true ->
+  NoDup (map o_mid (out (fst (run c ops)))).
+Proof. exact c14_nodup. Qed.
+Print Assumptions C14_live_ids_distinct.
+
+(* ... because a publish whose fresh id is still in use is refused and changes nothing *)
+Theorem C14_refused_when_in_use : forall c s q, q <> 0 ->
+  has_mid (mid_next (last_mid s)) (out s) = true ->
+  let r := do_publish c s q in
+  out (fst r) = out s /\ inflight (fst r) = inflight s /\ inm (fst r) = inm s /\
+  snd r = [Ret (ntag s) (mid_next (last_mid s)) q 15].
+Proof. exact c14_refused_when_in_use. Qed.
+Print Assumptions C14_refused_when_in_use.
 
 Example C14_nonvacuous : mid_seq 3 65534 = [65535; 1; 2].
 Proof. reflexivity. Qed.
